@@ -10,6 +10,8 @@ search (oracle): on the real expressions, `parse_string(s, parse_all=True)` acce
                  documented syntax (python transcription of the Lean `Is…` predicates) and the converted values agree
                  with int()/float()/ipaddress/uuid/datetime/str.isidentifier.  The agreement with CPython library
                  code is search-only (no model) and labelled so in the evidence.
+QuotedString:    model PPModel/Mod/Quoted.lean, theorems PPProofs/Props/C18Quoted.lean, facts / correspondence / oracle in
+                 harness/props/c18_quoted.py (see its docstring).
 """
 from __future__ import annotations
 
@@ -23,6 +25,7 @@ from pathlib import Path
 
 from .. import common
 from ..sexp import Sym, line as sx
+from . import c18_quoted as cq
 
 META = dict(
     text="PARTIAL. Proved in Lean for ALL strings (PPProofs/Props/C18.lean, over the regex-engine model "
@@ -41,18 +44,33 @@ META = dict(
          "fraction, ipv6 parts and the quoted-string built-ins only the generated-fact obligations (*_pattern_ast, "
          "*_leaves_fact, *_quoted_string_fact: live pattern = pinned AST, checked by the kernel on every run) are proved; "
          "their language theorems are MISSING and acceptance is decided by the oracle (python transcription of the syntax) on "
-         "generated strings. NOT proved (search only, on the real code): value agreement with int()/float()/ipaddress/"
-         "uuid/datetime/str.isidentifier; ipv6_address vs ipaddress; QuotedString round trip and verbatim source with "
-         "unquote_results=False (reference encoder, all parameter combinations); dbl/sgl/quoted_string + remove_quotes; "
-         "nested_expr vs a bracket reader; DelimitedList min/max/trailing delimiter; counted_array exact count. There is "
-         "no Lean model of QuotedString/nested_expr/DelimitedList/counted_array yet. Two open known findings are "
+         "generated strings. QuotedString (model PPModel/Mod/Quoted.lean = the unquote_scan_re loop, "
+         "convert_escaped_numerics, the esc_quote replacement and the slicing of parseImpl; PPProofs/Props/C18Quoted.lean): "
+         "quoted_roundtrip is full strength for the unquoting - for EVERY content and every option value, unquote(quote "
+         "content) = content for the minimal and the defensive writing, under the hypotheses the code needs (esc_char is not "
+         "a line feed; EscQuoteOk: content.replace(E,EQ).replace(EQ,E) == content, discharged for no esc_quote by "
+         "quoted_roundtrip_no_esc_quote and for a doubled one-character quote by quoted_roundtrip_doubled); "
+         "quoted_unquote_any_writing / quoted_scan_any_writing: every valid mix of writings (raw, esc_char+c, \\t\\n\\f\\r, "
+         "\\xHH, \\uHHHH, \\OOO) is read back; quoted_result_roundtrip, quoted_verbatim (unquote_results=False, immediate); "
+         "scan_pattern_facts (generated fact: the live unquote_scan_re.pattern is the transcribed text and it is compiled "
+         "with DOTALL iff multiline). MISSING for QuotedString: that the matching regex self.re ends exactly after "
+         "Q + quote(content) + E (the span; needs the preferred-match property of the backtracking matcher for the "
+         "parametric pattern) - decided by the oracle (model-written texts through the real parse_string) and by the "
+         "correspondence parse_string vs model (live pattern run by the regex-engine model + Quoted.result). "
+         "NOT proved (search only, on the real code): value agreement with int()/float()/ipaddress/"
+         "uuid/datetime/str.isidentifier; ipv6_address vs ipaddress; the QuotedString span; dbl/sgl/quoted_string + "
+         "remove_quotes; nested_expr vs a bracket reader; DelimitedList min/max/trailing delimiter; counted_array exact "
+         "count. There is no Lean model of nested_expr/DelimitedList/counted_array yet. Two open known findings are "
          "registered (ipv6_embedded_ipv4_forms, delimited_max1_trailing); quoted_numeric_escapes is fixed (31e7764) and "
          "its region (numeric escapes written by the reference encoder) is generated again.",
     note="Trusted: Lean kernel; axioms propext/Classical.choice/Quot.sound; the regex model (parser + matcher `m` + "
          "capture-free `ends` on which the theorems are stated) is a hand-written model of CPython re, validated only "
          "differentially on every run (every built-in pattern x generated strings: match end, groups, ends==m); "
          "\\d \\w \\s are ASCII in the model (CPython: Unicode), so theorems and runs are about ASCII text; the "
-         "python transcriptions of the syntaxes and the reference encoders/readers in harness/props/c18.py.",
+         "python transcriptions of the syntaxes and the reference encoders/readers in harness/props/c18.py; the QuotedString "
+         "model takes esc_char as one character and has no Char for \\uD800-\\uDFFF escapes (generators stay out); "
+         "matcher_ok (harness/props/c18_quoted.py: which model-written texts the matching regex must span) is a python "
+         "reference walk.",
     technique="Lean 4 proof over a regex-engine model + generated pattern facts + differential run against re + oracles",
     design="§5 C18",
 )
@@ -71,7 +89,7 @@ THEOREMS = [
     "PP.C18.mac_address_pattern_ast", "PP.C18.iso8601_date_pattern_ast", "PP.C18.iso8601_datetime_pattern_ast",
     "PP.C18.uuid_pattern_ast", "PP.C18.number_leaves_fact", "PP.C18.fraction_leaves_fact", "PP.C18.ipv6_leaves_fact",
     "PP.C18.dbl_quoted_string_fact", "PP.C18.sgl_quoted_string_fact", "PP.C18.quoted_string_fact",
-]
+] + cq.THEOREMS
 
 GEN_REL = "PPProofs/Props/Gen/Patterns.lean"
 
@@ -1395,7 +1413,9 @@ def run(ctx):
     facts = builtin_facts(pp)
     n_broken = len(ctx.broken)
     gen_facts = precheck_facts(ctx, facts)
-    ok = ctx.proof_leg("PPProofs.Props.C18", THEOREMS, generated={GEN_REL: gen_patterns_lean(gen_facts)})
+    qfacts = cq.facts_for_build(ctx, pp, lean_str)
+    ok = ctx.proof_leg("PPProofs.Props.C18", THEOREMS,
+                       generated={GEN_REL: gen_patterns_lean(gen_facts), cq.GEN_REL: qfacts}, extra_modules=[cq.MODULE])
     ok = ok and len(ctx.broken) == n_broken
     ctx.notes["generated_facts"] = {n: lv[:4] for n, lv in facts.items()}
     ctx.rule.append(
@@ -1409,7 +1429,15 @@ def run(ctx):
         "'::ffff:' prefix and no zone ids: region of the known finding). oracle-quoted-roundtrip: random parameter "
         "combinations (10 quote pairs x esc_char x esc_quote x multiline x unquote_results x convert_whitespace_escapes) "
         "x contents over an alphabet of quotes, escapes, backslash sequences and blanks, encoded by a reference encoder "
-        "(unrepresentable contents are skipped and counted). oracle-quoted-builtins: dbl/sgl/quoted_string vs a reference "
+        "(unrepresentable contents are skipped and counted). oracle-quoted-model: texts written by the Lean model "
+        "(qsquote: minimal/defensive writing of a content; qsencode: a list of (writing, character) items) and parsed by the "
+        "real QuotedString with parse_all - a sweep of every writing (raw, esc, ws, hex, uni, oct) x ~25 character classes "
+        "(LF CR TAB FF blank, quote/end-quote characters, esc_char, backslash, 0 1 7 8 x u t n f r, letters, @, e-acute, "
+        "NUL, \\xff, U+0100) x followers ('', '1', '41', 'b') x quote pairs x esc_char x esc_quote x multiline x "
+        "convert_whitespace_escapes (+ unquote_results=False), fixed regression cases, and a random stream; writings the "
+        "model calls not valid and texts the reference walk matcher_ok calls not matchable are skipped and counted. "
+        "quoted-parse-vs-model: parse_string(text) token vs model on those well-formed texts and on arbitrary / "
+        "truncated / extended bodies (non-trivial = the real expression matched). oracle-quoted-builtins: dbl/sgl/quoted_string vs a reference "
         "scanner + remove_quotes. oracle-nested: random bracket trees rendered with 9 opener/closer pairs (single- and multi-character, "
         "keyword), ignore_expr=None, default content; words from plain letters (45%), from an alphabet of characters that "
         "re's \\s/\\S, quoting or C strings treat specially (\\x0c \\x0b \\xa0 \\u2003 \\x1c \\x1f \\x85 \\u3000 e-acute ~ backslash "
@@ -1423,6 +1451,13 @@ def run(ctx):
     builtin_oracle(ctx, pp, facts, boost=boost)
     ipv6_oracle(ctx, pp)
     quoted_oracle(ctx, pp)
+    n_broken_q = len(ctx.broken)
+    wellformed = cq.quoted_model_oracle(ctx, pp)
+    qdiffs = cq.quoted_correspondence(ctx, pp, wellformed)
+    if (qdiffs or not ok or len(ctx.broken) > n_broken_q or ctx.broken) and \
+            not any("qsmodel" in f["case"] for f in ctx.fail_inputs):
+        # a broken obligation / correspondence diff alone is not a violation: search for a failing input
+        cq.quoted_model_oracle(ctx, pp, search_cfgs=[c["qscorr"] for c in qdiffs])
     quoted_builtins_oracle(ctx, pp)
     nested_oracle(ctx, pp)
     delimited_oracle(ctx, pp)
@@ -1439,6 +1474,8 @@ def replay(data):
         return check_builtin(pp, case["builtin"], case["s"]) is not None
     if "ipv6" in case:
         return check_ipv6(pp, case["ipv6"]) is not None
+    if "qsmodel" in case:
+        return cq.check_model_quoted(pp, case["qsmodel"], case["inner"], case["expected"]) not in (None, "skip")
     if "quoted" in case:
         return check_quoted(pp, case["quoted"], case["content"], case.get("style", "")) not in (None, "skip")
     if "quoted_builtin" in case:
